@@ -24,7 +24,7 @@ from ..pool import run_tasks, shard_counts
 PID = "C14"
 RULE = ("Hypothesis-generated expression trees (depth<=5) over 3-5 vector atoms and 2 real scalar atoms with "
     "ops add/scale/neg/cross/dot/mixed/norm/mul/addS/negS/pow2, repeated operands generated on purpose, a generated "
-    "permutation fixing the relative id() order of the atoms, evaluated (a) through auto-evaluating constructors, "
+    "permutation fixing the relative id() order of the atoms, display names drawn from a tiny pool (distinct atoms often share a name), evaluated (a) through auto-evaluating constructors, "
     "(b) evaluate=False then .doit(), (c) .diff(t)/vector_diff on function-valued atoms; each compared with the "
     "harness R^3 component model under 2 rational assignments (60-digit arithmetic, tol 1e-40). "
     "Non-trivial = tree contains a product node with a product operand, or a repeated operand; distinct by tree+perm hash.")
@@ -123,7 +123,9 @@ def case_strategy(draw: Any, deriv: bool = False) -> Any:
             a["dV"] = [[draw(_rat()) for _ in range(3)] for _ in range(k)]
             a["dS"] = [draw(_rat()) for _ in range(NS)]
         assigns.append(a)
-    case: dict[str, Any] = {"k": k, "perm": list(perm), "expr": expr, "assign": assigns}
+    # display names from a tiny pool: distinct atoms often share a name (they must still be distinct vectors)
+    names = [draw(st.sampled_from(["a", "b", "a", "F"])) for _ in range(k)]
+    case: dict[str, Any] = {"k": k, "perm": list(perm), "expr": expr, "assign": assigns, "names": names}
     if deriv:
         # which atoms are functions of t (others are constant symbols)
         case["funV"] = [draw(st.booleans()) or i == 0 for i in range(k)]
@@ -199,14 +201,15 @@ class Built:
         # create more objects than needed, sort by id, pick by the generated permutation so the
         # permutation *is* the relative id order of the roles
         raw: list[Any] = []
+        names = case.get("names") or [f"w{i}" for i in range(k)]
         for i in range(k):
-            raw.append(VectorSymbol(f"w{i}"))
+            raw.append(VectorSymbol(names[i]))
         raw.sort(key=id)
         self.idrank = list(case["perm"])
         self.atoms_v: list[Any] = []
         for role in range(k):
             if deriv and funv[role]:
-                f = VectorFunction(f"f{role}", (self.t,))
+                f = VectorFunction(names[role], (self.t,))
                 self.atoms_v.append(f(self.t))
             else:
                 self.atoms_v.append(raw[case["perm"][role]])
